@@ -22,8 +22,8 @@ join against the real HTTP status.
 import vlib
 
 PROP = "C14"
-CUR = dict(CheckThenAct=False)   # after fix c34b1e3 and 590f50b
-INVS = ['AdmitOnlyWhileLive', 'NoAdmitAfterHostLeft', 'SessionsBound', 'ReceiversBound', 'ConnsBound', 'ZeroMeansOff']
+CUR = dict(CheckThenAct=False, ReconnectSkipsSlot=False, Pids='{1,2}')   # after fix c34b1e3 and 590f50b
+INVS = ['AdmitOnlyWhileLive', 'NoAdmitAfterHostLeft', 'SessionsBound', 'ReceiversBound', 'ReceiverSocketsBound', 'ConnsBound', 'ZeroMeansOff']
 
 
 def run(tier, seed):
@@ -44,12 +44,17 @@ def run(tier, seed):
         runs.append(dict(gcfg, generated=r['generated'], distinct=r['distinct']))
     refuted = {}
     for inv, extra in (('SessionsBound', {}), ('ReceiversBound', dict(MaxSessions=0))):
-        c = dict(Reqs='{1,2,3,4}', MaxTime=3, MaxSessions=1, MaxReceivers=1, MaxConns=2, TTL=2, CheckThenAct=True)
+        c = dict(Reqs='{1,2,3,4}', MaxTime=3, MaxSessions=1, MaxReceivers=1, MaxConns=2, TTL=2, CheckThenAct=True, ReconnectSkipsSlot=False, Pids='{1,2}')
         c.update(extra)
         rn = vlib.run_tlc('Server', dict(constants=c, invariants=[inv]), workers=8, want_edges=False, expect_violation=True)
         refuted[inv] = rn['violated']
         if not rn['violated']:
             raise vlib.HarnessTrouble("negative control CheckThenAct/%s not refuted" % inv)
+    rr = vlib.run_tlc('Server', dict(constants=dict(Reqs='{1,2,3,4}', MaxTime=2, MaxSessions=0, MaxReceivers=1, MaxConns=0, TTL=0, CheckThenAct=False,
+                                                    ReconnectSkipsSlot=True, Pids='{1,2}'), invariants=['ReceiversBound']), workers=8, want_edges=False, expect_violation=True)
+    refuted['ReconnectSkipsSlot'] = rr['violated']
+    if not rr['violated']:
+        raise vlib.HarnessTrouble("negative control ReconnectSkipsSlot not refuted")
     srv = vlib.build_repo_bin('./cmd/thruserv', 'thruserv')
     res = vlib.run_vh_sharded(['limits', '-thruserv', srv, '-rounds', '1' if tier == "quick" else '5'], 8, timeout=3000)
     for viol in res['violations']:
